@@ -1,26 +1,17 @@
 (* C17 - the statements behind Properties/C17.v, with their non-vacuity examples. *)
 From Coq Require Import NArith PeanoNat List Bool Lia.
-From DvcData Require Import Base.Val Model.IndexLoad Proofs.IndexLoadBase Proofs.IndexLoadProofs.
+From DvcData Require Import Base.Val Model.IndexLoad Proofs.IndexLoadBase Proofs.IndexLoadProofs Proofs.IndexLoadMore.
 Import ListNotations.
 Open Scope N_scope.
 
-(* operations covered by the transparency proof: all but the hash-level diff and the shallow
-   iteration (both are in the model and in the correspondence; see Properties/C17.v) *)
-Definition supported (o : op) : Prop :=
-  match o with
-  | ODiff _ => False
-  | OItems _ true => False
-  | _ => True
-  end.
-
-Lemma step_vsim E o : supported o -> vsim E o.
+Lemma step_vsim E o : vsim E o.
 Proof.
-  destruct o as [k|p sh|k|k|oth|p|p|p|f|f k]; intros S; try contradiction.
+  destruct o as [k|p sh|k|k|oth|p|p|p|f|f k].
   - eapply (sim_vsim E (fun i => get_step E i k) enc_get); [reflexivity | apply get_sim].
-  - destruct sh; [contradiction|].
-    eapply (sim_vsim E (fun i => items_step E i p false) enc_items); [reflexivity | apply items_sim].
+  - eapply (sim_vsim E (fun i => items_step E i p sh) enc_items); [reflexivity | apply items_sim_all].
   - eapply (sim_vsim E (fun i => ls_step E i k) enc_ls); [reflexivity | apply ls_sim].
   - eapply (sim_vsim E (fun i => get_step E i k) (enc_res enc_info)); [reflexivity | apply get_sim].
+  - eapply (sim_vsim E (fun i => diff_step E i oth)); [reflexivity | apply diff_sim].
   - eapply (sim_vsim E (fun i => fs_ls_step E i p)); [reflexivity | apply fs_ls_sim].
   - eapply (sim_vsim E (fun i => fs_info_step E i p)); [reflexivity | apply fs_info_sim].
   - eapply (sim_vsim E (fun i => fs_read_step E i p)); [reflexivity | apply fs_read_sim].
@@ -28,16 +19,15 @@ Proof.
   - eapply (sim_vsim E (fun i => view_ls_step E i f k) enc_ls); [reflexivity | apply view_ls_sim].
 Qed.
 
-Theorem transparent_partial E : forall ops i,
-  ok E i -> wf E i -> Forall supported ops ->
+Theorem transparent E : forall ops i,
+  ok E i -> wf E i ->
   answers E i ops = answers E (load_all E i) ops /\ fst (run E (load_all E i) ops) = load_all E i.
 Proof.
-  unfold answers. induction ops as [|o ops IH]; intros i Hok Hwf HS; [split; reflexivity|].
-  inversion HS as [|? ? So Sops]; subst.
-  destruct (step_vsim E o So i Hok Hwf) as [[s G1] [G2 G3]].
+  unfold answers. induction ops as [|o ops IH]; intros i Hok Hwf; [split; reflexivity|].
+  destruct (step_vsim E o i Hok Hwf) as [[s G1] [G2 G3]].
   simpl. destruct (step E i o) as [i1 a] eqn:Ea. destruct (step E (load_all E i) o) as [j1 b] eqn:Eb.
   simpl in G1, G2, G3. subst i1 j1 b.
-  destruct (IH (load_where E s i) (ok_load_where E s i Hok) (wf_load_where E s i Hok Hwf) Sops) as [I1 I2].
+  destruct (IH (load_where E s i) (ok_load_where E s i Hok) (wf_load_where E s i Hok Hwf)) as [I1 I2].
   rewrite load_all_absorbs in I1, I2.
   destruct (run E (load_where E s i) ops) as [i2 l]. destruct (run E (load_all E i) ops) as [j2 l'].
   simpl in *. subst. split; reflexivity.
@@ -45,14 +35,13 @@ Qed.
 
 (* the lazy run only ever loads: its final state is a partial load of the initial one, and
    loading the rest gives the fully loaded index *)
-Theorem run_loads_only E : forall ops i, ok E i -> wf E i -> Forall supported ops ->
+Theorem run_loads_only E : forall ops i, ok E i -> wf E i ->
   load_all E (fst (run E i ops)) = load_all E i.
 Proof.
-  induction ops as [|o ops IH]; intros i Hok Hwf HS; [reflexivity|].
-  inversion HS as [|? ? So Sops]; subst.
-  destruct (step_vsim E o So i Hok Hwf) as [[s G1] _].
+  induction ops as [|o ops IH]; intros i Hok Hwf; [reflexivity|].
+  destruct (step_vsim E o i Hok Hwf) as [[s G1] _].
   simpl. destruct (step E i o) as [i1 a]. simpl in G1. subst i1.
-  specialize (IH (load_where E s i) (ok_load_where E s i Hok) (wf_load_where E s i Hok Hwf) Sops).
+  specialize (IH (load_where E s i) (ok_load_where E s i Hok) (wf_load_where E s i Hok Hwf)).
   destruct (run E (load_where E s i) ops) as [i2 l]. simpl in *. now rewrite IH, load_all_absorbs.
 Qed.
 
@@ -193,7 +182,9 @@ Definition ex_idx : idx :=
   [([[100]], En true None false (Some ex_d) false); ([[102]], E0 (Some ex_h1) false)].
 Definition ex_ops : list op :=
   [OInfo [[100]; [115]]; OItems [] false; OLs [[100]]; OFsRead [47; 100; 47; 115; 47; 121];
-   OViewItems (f_anc [[100]; [115]]); OGet [[100]; [110]]].
+   OViewItems (f_anc [[100]; [115]]); OGet [[100]; [110]];
+   ODiff [([[100]], En true None false None true); ([[100]; [120]], En false None false (Some ex_h2) false)];
+   OItems [] true].
 
 Lemma ex_ok : ok ex_env ex_idx.
 Proof.
@@ -205,8 +196,6 @@ Proof.
   - intros x y [<-|[<-|[]]] [<-|[<-|[]]] L P; try reflexivity; vm_compute in L, P; discriminate.
   - intros x [<-|[<-|[]]]; discriminate.
 Qed.
-Lemma ex_supported : Forall supported ex_ops.
-Proof. repeat constructor. Qed.
 Example ex_nontrivial :
   length (load_all ex_env ex_idx) = 5%nat /\
   nth 3 (answers ex_env ex_idx ex_ops) (VN 0) = VL [VN 1; VB [3]] /\
@@ -214,7 +203,7 @@ Example ex_nontrivial :
   length (fst (run ex_env ex_idx ex_ops)) = 5%nat.
 Proof. vm_compute. repeat split. Qed.
 Example ex_transparent : answers ex_env ex_idx ex_ops = answers ex_env (load_all ex_env ex_idx) ex_ops.
-Proof. apply transparent_partial; [apply ex_ok | apply ex_wf | apply ex_supported]. Qed.
+Proof. apply transparent; [apply ex_ok | apply ex_wf]. Qed.
 Example ex_prefix_closed : prefix_closed (f_anc [[100]; [115]]).
 Proof.
   intros a b NA H. unfold f_anc in *. apply orb_true_iff in H as [H|H]; apply orb_true_iff.
@@ -229,8 +218,10 @@ Qed.
 Example ex_explicit : project (load_all ex_env ex_idx) = project (explicit ex_env ex_idx) /\
                       length (project (explicit ex_env ex_idx)) = 5%nat.
 Proof. vm_compute. split; reflexivity. Qed.
-(* the diff and the shallow iteration, on the example, also agree with the loaded index *)
-Example ex_unsupported_agree :
-  let o := [([[100]], En true None false None true); ([[100]; [120]], En false None false (Some ex_h2) false)] in
-  answers ex_env ex_idx [ODiff o; OItems [] true] = answers ex_env (load_all ex_env ex_idx) [ODiff o; OItems [] true].
+(* the diff of the example reports a modification of d/x and the deletion of d/s/y and f *)
+Example ex_diff_answer :
+  match nth 6 (answers ex_env ex_idx ex_ops) (VN 0) with
+  | VL [VN 1; VL l] => length l = 4%nat
+  | _ => False
+  end.
 Proof. vm_compute. reflexivity. Qed.
